@@ -154,6 +154,27 @@ Theorem translated_float_2d_is_row_encoder : forall w old rows cellss m, Forall2
 Proof. exact translated_float_2d_lemma. Qed.
 Print Assumptions translated_float_2d_is_row_encoder.
 
+(* strings (interned ids; "." = missing, "" = fill): INFO strings, per-sample strings -- rectangular or RAGGED rows, each
+   sample's values written as a prefix of its own row --, scalars *)
+Theorem translated_string_1d_is_row_encoder : forall w old raw cells, Forall2 str_raw raw cells -> (length cells <= w)%nat ->
+  gen_string_1d w old (Some raw) = Ok (enc_vec str_missing str_fill w (Some cells)) /\
+  gen_string_1d w old None = Ok (enc_vec str_missing str_fill w None).
+Proof. exact translated_string_1d_lemma. Qed.
+Print Assumptions translated_string_1d_is_row_encoder.
+
+Theorem translated_string_2d_is_row_encoder : forall w old rows cellss, Forall2 (Forall2 str_raw) rows cellss ->
+  Forall (fun x => (length x <= w)%nat) rows ->
+  gen_string_2d (length rows) w old (Some rows) = Ok (map (fun cells => enc_vec str_missing str_fill w (Some cells)) cellss) /\
+  gen_string_2d (length rows) w old None = Ok (repeat (enc_vec str_missing str_fill w None) (length rows)).
+Proof. exact translated_string_2d_lemma. Qed.
+Print Assumptions translated_string_2d_is_row_encoder.
+
+Theorem translated_string_scalar :
+  (forall r c rest, str_raw r c -> gen_string_scalar (Some (r :: rest)) = Ok (enc_cell str_missing c)) /\
+  gen_string_scalar None = Ok str_missing.
+Proof. exact translated_string_scalar_lemma. Qed.
+Print Assumptions translated_string_scalar.
+
 (* scalars (Number=1) and flags *)
 Theorem translated_scalars :
   (forall r c rest, int_raw r c -> gen_int_scalar (Some (r :: rest)) = Ok (enc_cell c_INT_MISSING c)) /\
